@@ -942,60 +942,64 @@ impl Monitor for M {
                 .batch(128)
                 .exhaustive("operation sequences of length 1..5 over {read,ifeof,closein,openin} x 12 file shapes"),
             Phase::new("chain", tier.pick(1200, 6000)).batch(8),
-            Phase::new("tree", tier.pick(80_000, 1_500_000)).batch(64),
-            Phase::new("read", tier.pick(50_000, 1_000_000)).batch(64),
+            Phase::new("tree", tier.pick(150_000, 5_000_000)).batch(64),
+            Phase::new("read", tier.pick(100_000, 3_000_000)).batch(64),
         ]
     }
 
     fn floors(&self, tier: Tier) -> Vec<(&'static str, u64)> {
         let s = match tier {
             Tier::Quick => 1,
-            Tier::Thorough => 20,
+            Tier::Thorough => 8,
         };
         vec![
-            ("calibration.rows_agree", 15),
-            ("m.inputs", 40_000 * s),
-            ("m.inputs_name_ended_by_space", 10_000 * s),
-            ("m.inputs_name_ended_by_eol", 5_000 * s),
-            ("m.inputs_from_token_list", 1_000 * s),
-            ("m.max_file_depth_5", 1_000 * s),
-            ("m.empty_file_inputs", 500 * s),
-            ("m.endinput_executed", 5_000 * s),
-            ("m.endinput_with_nonblank_rest", 1_000 * s),
-            ("m.endinput_from_token_list", 200 * s),
-            ("m.endinput_in_main", 200 * s),
-            ("m.lines_unread_behind_endinput", 2_000 * s),
-            ("m.file_left_group_open", 500 * s),
-            ("m.file_left_conditional_open", 500 * s),
-            ("m.file_closed_outer_group", 200 * s),
-            ("m.file_closed_outer_conditional", 200 * s),
-            ("m.par_tokens", 2_000 * s),
-            ("g.file_without_final_newline", 5_000 * s),
-            ("g.dead_chunk_spans_lines", 500 * s),
-            ("tree.pass", 5_000 * s),
-            ("tree.markers_checked", 100_000 * s),
-            ("tree.probes_checked", 20_000 * s),
-            ("diff.runs", 10_000 * s),
-            ("diff.equal", 5_000 * s),
-            ("place.pass", 1_000),
-            ("chain.ok_must_succeed", 100),
-            ("chain.refused_must_be_refused", 50),
-            ("chain.recursion_refused_with_documented_error", 50),
-            ("chain.num_sources_equals_depth", 100),
-            ("m.reads", 100_000 * s),
-            ("m.reads_multiline_group", 5_000 * s),
-            ("m.reads_unmatched_close_brace", 1_000 * s),
-            ("m.reads_of_appended_empty_line", 2_000 * s),
-            ("m.reads_from_terminal", 200 * s),
-            ("m.reads_inside_group", 2_000 * s),
-            ("m.ifeof_true", 10_000 * s),
-            ("m.ifeof_false", 10_000 * s),
-            ("m.openin_missing", 2_000 * s),
-            ("m.closein", 5_000 * s),
-            ("m.max_streams_open_16", 1),
-            ("read.pass", 4_000 * s),
-            ("read.cases_avoiding_known_trigger", 4_000 * s),
-            ("readenum.pass", 1_000),
+            ("m.inputs", 100000 * s),
+            ("m.inputs_name_ended_by_space", 70000 * s),
+            ("m.inputs_name_ended_by_eol", 70000 * s),
+            ("m.inputs_from_token_list", 20000 * s),
+            ("m.max_file_depth_5", 3000 * s),
+            ("m.empty_file_inputs", 4000 * s),
+            ("m.endinput_executed", 50000 * s),
+            ("m.endinput_with_nonblank_rest", 10000 * s),
+            ("m.endinput_from_token_list", 9000 * s),
+            ("m.endinput_in_main", 3000 * s),
+            ("m.lines_unread_behind_endinput", 40000 * s),
+            ("m.file_left_group_open", 30000 * s),
+            ("m.file_left_conditional_open", 40000 * s),
+            ("m.file_closed_outer_group", 7000 * s),
+            ("m.file_closed_outer_conditional", 10000 * s),
+            ("m.par_tokens", 70000 * s),
+            ("g.file_without_final_newline", 60000 * s),
+            ("g.dead_chunk_spans_lines", 20000 * s),
+            ("g.input_in_macro_body", 20000 * s),
+            ("g.endinput_in_macro_body", 9000 * s),
+            ("g.file_empty", 3000 * s),
+            ("tree.pass", 10000 * s),
+            ("tree.cases_avoiding_known_triggers", 10000 * s),
+            ("tree.markers_checked", 300000 * s),
+            ("tree.probes_checked", 60000 * s),
+            ("diff.runs", 20000 * s),
+            ("diff.equal", 10000 * s),
+            ("m.reads", 60000 * s),
+            ("m.reads_multiline_group", 9000 * s),
+            ("m.reads_unmatched_close_brace", 5000 * s),
+            ("m.reads_of_appended_empty_line", 5000 * s),
+            ("m.reads_from_terminal", 8000 * s),
+            ("m.reads_inside_group", 10000 * s),
+            ("m.ifeof_true", 70000 * s),
+            ("m.ifeof_false", 30000 * s),
+            ("m.eof_pending_observed", 7000 * s),
+            ("m.openin_missing", 10000 * s),
+            ("m.closein", 30000 * s),
+            ("read.pass", 10000 * s),
+            ("read.cases_avoiding_known_trigger", 8000 * s),
+            ("place.pass", 3000),
+            ("readenum.pass", 10000),
+            ("chain.ok_must_succeed", 300),
+            ("chain.refused_must_be_refused", 150),
+            ("chain.recursion_refused_with_documented_error", 150),
+            ("chain.num_sources_equals_depth", 300),
+            ("m.max_streams_open_16", 1000),
         ]
     }
 
